@@ -74,7 +74,9 @@ let () = main_loop (fun x ->
      | None -> A "None" | Some CIgnore -> A "Ignore" | Some CCategorical -> A "Categorical"
      | Some CValue -> A "Value")
   | L [A "X"; A "structok"; j] ->
-    (match sx_json j with JObj kvs -> bool_sx (struct_ok kvs) | _ -> A "notobj")
+    (match sx_json j with
+     | JObj kvs -> L [bool_sx (struct_ok kvs); bool_sx (struct_ok_but_hash kvs)]
+     | _ -> A "notobj")
   | L [A "X"; A "codes"] ->
     L (List.map (fun k -> L [str_sx (kind_code k); bool_sx (kind_is_error k)])
          [K_BLANK_HED_STRING; K_WRONG_HED_DATA_TYPE; K_INVALID_POUND_SIGNS_VALUE;
